@@ -216,6 +216,14 @@ def run_hypothesis(rec, n, seed, tier):
         test()
     except Violation:
         pass
+    except BaseException:   # noqa
+        # Hypothesis reports a failure that did not repeat on replay as
+        # FlakyFailure (an exception group). The violation did happen, with
+        # the recorded case (e.g. it depends on when a subprocess finishes):
+        # it is reported, with the replay file written when it was seen.
+        if rec.violation is None:
+            raise
+        rec.violation["detail"] = "(not reproduced on immediate replay: timing-dependent) " + rec.violation["detail"]
 
 
 def run_enumeration(rec, tier, shard, nshards):
